@@ -70,7 +70,7 @@ class Ctx:
         if k == "float":
             return struct.unpack(">f" if W[f["ty"]] == 4 else ">d", bytes(v["b"]))[0]
         if k == "char":
-            return chr(v["b"][0])
+            return v["b"][0]           # the emitter carries a char as its code (one unsigned byte)
         if k in ("fix", "dyn"):
             return bytes(v["b"]).decode("utf-8")
         if k == "obj":
